@@ -65,3 +65,9 @@ CHECKS["C17"] = {
  "text": "Models containing every builder class are compared slot by slot with a plain twin (plain Server/Job carrying the derived parameters, services folded into base consumption); each derived parameter is recomputed by the monitor from the EcoLogits / Ecobenchmark / Boavizta data with the builder's stated rule; builder inputs are then edited (incl. provider+model and provider+instance grouped updates) and the live model compared with a rebuilt one and its twin. quick: all 7 resolutions and all computable technology x use-case pairs + stratified models / instance types; thorough: exhaustive over the four categorical spaces (7, 29, 295, 1919).",
  "note": TB + "a plain Job cannot target a GPUServer (default compute in cpu_core), so the twin of a GenAI job is a harness-defined Job subclass whose default compute is in gpu; technology x use-case pairs absent from the packaged table cannot be computed by the library (IndexError) and are excluded",
 }
+CHECKS["C08"] = {
+ "level": "exploration",
+ "technique": "runtime monitoring: structural invariant on the live id-level graph, update-order monitor against the monitor's own closure, completeness by one-at-a-time input perturbation and rebuild",
+ "text": "At every quiescent point of generated models, edits, simulations and toggles every listed edge is checked to be held by the model and listed on both ends, the graph to be acyclic and the exported JSON to list exactly these edges; for every input the derived update chain is compared with the monitor's descendant closure (each id once, after its ancestors). On the final model inputs are perturbed one at a time (x1.37, x10, x0.001, x3600 capped, categorical/zone switch, empty->fixed count), the model rebuilt, and every changed calculated slot must have the input among its transitive ancestors.",
+ "note": TB + "all entries of a per-pattern dict share one id and are one node; quick samples 24 (input, perturbation) pairs per system, thorough takes all; known finding F24 (dangling edges while a link-changing simulation is toggled on)",
+}
